@@ -985,6 +985,8 @@ from mlmverif.selfcheck import B, OK  # noqa: E402
 
 _F = 'utils/iter_utils.py'
 VARIANTS = [
+    OK('dequeued-value-through-a-local', 'utils/iter_utils.py',
+       "          value = self.get_nowait()\n", "          item = self.get_nowait()\n          value = item\n"),
     OK('returned-values-through-a-local', 'utils/iter_utils.py',
        "      self._returned.extend(values)\n", "      ended_with = values\n      self._returned.extend(ended_with)\n"),
     OK('put-through-a-local', 'utils/iter_utils.py',
